@@ -15,7 +15,7 @@ def run(run_):
         return
     maxlen = 3 if tier == "quick" else 4
     inp = {"alphabet": ALPHABET, "maxlen": maxlen, "len4_count": 300000 if tier == "quick" else 0,
-           "long_count": 50000 if tier == "quick" else 400000, "seed": seed}
+           "long_count": 50000 if tier == "quick" else 400000, "seed": seed, "code_points": True}
     out, err = run_harness(binary, "c11", inp, timeout=1200)
     if out is None:
         run_.violation("C11 harness failed: " + err, {"correspondence": "C11 harness run", "error": err}, no_input=True)
@@ -60,7 +60,7 @@ def run(run_):
         "evaluations": out["tried"],
         "distinct_nontrivial": len({tuple(a["s"]) for a in acc}),
         "rule": "every string of length <= %d over the %d-symbol alphabet [a-zA-Z0-9#- ] (exhaustive), every byte string of length <= 2 over all 256 byte "
-                "values and every 3-byte string with one arbitrary byte and two alphabet symbols (exhaustive), plus sampled longer/arbitrary-byte strings; "
+                "values and every 3-byte string with one arbitrary byte and two alphabet symbols (exhaustive), every Unicode scalar value in each position of a name (8 shapes x 1.1 M, exhaustive), plus sampled longer/arbitrary-byte strings; "
                 "non-trivial = distinct strings the implementation accepted (each compared with the proved 280-entry table), "
                 "all others must be rejected; all 128 numbers through NoteToPitch/NoteToOctave" % (maxlen, len(ALPHABET)),
         "samples": [{"input": s_of(a["s"]), "value": a["n"]} for a in acc[:6]] + [{"input": "H1", "expected": "rejected"}],
